@@ -63,6 +63,11 @@ theorem hashableL_iff {xs : List Obj} : hashableL xs = true ↔ ∀ x ∈ xs, x.
     simp only [hashableL] at ih
     simp [hashableL, Obj.hashable.hashableL, ih]
 
+theorem wfL_iff {xs : List Obj} : Obj.wf.wfL xs = true ↔ ∀ x ∈ xs, x.wf = true := by
+  induction xs with
+  | nil => simp [Obj.wf.wfL]
+  | cons x xs ih => simp [Obj.wf.wfL, ih]
+
 /-! ### bounds -/
 
 theorem check_ok_iff {b : Bounds} {x : Rat} :
